@@ -19,6 +19,7 @@ def plan(ctx):
         surv = [i for i in range(n) if i not in emax]
         for ln in (1, unit, 2 * unit + 1):
             obs.append(l2_ob(be, k, m, hd, surv, ln=ln, mode=2, dest=0, ct=2, tag="reclen"))
+        obs.append(l2_ob(be, k, m, hd, surv, ln=unit + 1, mode=2, dest=0, ct=2, unalign=(1 << len(surv)) - 1, tag="recunal"))
         # destination outside 0..k+m-1 must be refused
         for d in (-1, n, n + 1, INT_MAX, -INT_MAX - 1):
             obs.append(l2_ob(be, k, m, hd, surv, ln=unit + 1, mode=2, dest=d, expect=-1, tag="recoob"))
